@@ -168,6 +168,73 @@ def assignment_templates():
     return T
 
 
+def union_operand_templates():
+    """an operand whose static type is a union (or `any`) of which only ONE member is admissible for the position, holding
+    the other member at run time: every operand position that the implementation later unwraps.  The checker must reject
+    each (admissibility is `matches`, not `is matched by`); whatever it accepts must not panic or leave its types"""
+    T = []
+    F = lambda x: ("f", x)
+    S = lambda x: ("s", x)
+    ARR = ("array", [I(1), I(2), I(3)])
+    n = V("n")
+    blk = lambda *st: ("block", list(st))
+    want_int = [
+        ("repeat", I(0), n), ("repeat", n, I(2)) , ("at", ARR, n), ("at", S("abc"), n),
+        ("slice", ARR, n, None, None), ("slice", ARR, None, n, None), ("slice", ARR, None, None, n), ("slice", S("abcd"), n, n, n),
+    ] + [("bin", op, n, I(1)) for op in ("add", "sub", "mul", "div", "mod", "pow", "shl", "shr", "band", "bor", "bxor", "lt", "le", "gt", "ge")] + \
+        [("bin", op, I(1), n) for op in ("add", "sub", "mul", "div", "mod", "pow", "shl", "shr", "band", "bor", "bxor", "lt", "le", "gt", "ge")] + \
+        [("pre", "neg", n), ("call", V("inc"), [n]), ("tacc", ("tuple", [n, I(1)]), 0),
+         ("assign", "add", V("c"), n), ("assign", "set", V("c"), n), ("assign", "shl", V("c"), n), ("assign", "div", V("c"), n),
+         ("array", [I(1), ("bin", "add", n, I(1))])]
+    int_unions = [(multi(INT, FLOAT), F(2.5)), (multi(INT, STR), S("x")), (multi(INT, VOID), ("unit",)), (ANY, S("x")), (ANY, F(2.5)),
+                  (multi(INT, arr(INT)), ("array", [I(1)]))]
+    pre = [("fndecl", "inc", [("v", INT)], INT, [("return", ("bin", "add", V("v"), I(1)))]), ("set", "c", ("mut", INT, I(6)))]
+    for e in want_int:
+        for u, bad in int_unions:
+            T.append(pre + [("fndecl", "g", [("n", u)], ANY, [("return", e)]), ("call", V("g"), [bad])])
+    want_bool = [("pre", "not", n), ("and", n, ("true",)), ("and", ("true",), n), ("or", n, ("false",)), ("or", ("false",), n),
+                 ("if", n, blk(I(1)), blk(I(2))), ("while", n, blk(("break",))), ("bin", "band", n, ("true",)), ("bin", "bxor", ("true",), n),
+                 ("post", "all", ("post", "iter", ("array", [("true",), n])))]
+    for e in want_bool:
+        for u, bad in ((multi(BOOL, INT), I(1)), (multi(BOOL, VOID), ("unit",)), (ANY, I(1)), (ANY, S("x"))):
+            T.append([("fndecl", "g", [("n", u)], ANY, [("return", e) if e[0] != "while" else e, ("return", I(0))]), ("call", V("g"), [bad])])
+    want_arr = [("at", n, I(0)), ("slice", n, I(0), None, None), ("post", "iter", n), ("bin", "add", n, ARR), ("bin", "add", ARR, n),
+                ("for", "x", ("post", "iter", n), blk(V("x"))), ("post", "sum", ("post", "iter", n)), ("destruct", ["p", "q"], n)]
+    for e in want_arr:
+        for u, bad in ((multi(arr(INT), INT), I(5)), (multi(arr(INT), VOID), ("unit",)), (ANY, I(5)), (multi(arr(INT), tup(INT, INT)), ("tuple", [I(1), I(2)]))):
+            T.append([("fndecl", "g", [("n", u)], ANY, [e, ("return", I(0))] if e[0] in ("for", "destruct") else [("return", e)]), ("call", V("g"), [bad])])
+    want_fn = [("call", n, [I(1)]), ("bin", "map", ("post", "iter", ARR), n), ("bin", "filter", ("post", "iter", ARR), n),
+               ("bin", "partition", ("post", "iter", ARR), n), ("reduce", ("post", "iter", ARR), I(0), n)]
+    for e in want_fn:
+        for u, bad in ((multi(fn((INT,), INT), INT), I(5)), (ANY, I(5)), (multi(fn((INT,), INT), fn((INT, INT), INT)), ("fn", [("a", INT), ("b", INT)], INT, [("return", V("a"))])),
+                       (multi(fn((INT,), BOOL), fn((INT,), INT)), ("fn", [("a", INT)], INT, [("return", V("a"))]))):
+            T.append([("fndecl", "g", [("n", u)], ANY, [("return", e if e[0] in ("call", "reduce") or e[2] == "partition" else ("post", "collect", e))]), ("call", V("g"), [bad])])
+    want_iter = [("post", op, n) for op in ("sum", "product", "bitand", "bitor", "collect")] + [("for", "x", n, blk(V("x"))), ("tfilter", n, INT),
+                 ("bin", "map", n, V("inc")), ("reduce", n, I(0), ("fn", [("a", INT), ("b", INT)], INT, [("return", V("a"))]))]
+    for e in want_iter:
+        for u, bad in ((multi(iter_of(INT), INT), I(5)), (multi(iter_of(INT), arr(INT)), ARR), (ANY, ARR),
+                       (multi(iter_of(INT), iter_of(STR)), ("post", "iter", ("array", [S("a")]))),
+                       (multi(iter_of(INT), fn((), INT)), ("fn", [], INT, [("return", I(1))]))):
+            T.append(pre[:1] + [("fndecl", "g", [("n", u)], ANY, [e, ("return", I(0))] if e[0] == "for" else [("return", e if e[0] not in ("tfilter", "bin") else ("post", "collect", e))]),
+                                ("call", V("g"), [bad])])
+    want_cell = [("pre", "deref", n), ("assign", "set", n, I(1)), ("assign", "add", n, I(1)), ("assign", "div", n, I(1))]
+    for e in want_cell:
+        for u, bad in ((multi(cell(INT), INT), I(5)), (ANY, I(5)), (multi(cell(INT), cell(STR)), ("mut", STR, S("a"))),
+                       (multi(cell(INT), cell(multi(INT, STR))), ("mut", multi(INT, STR), S("a")))):
+            T.append([("fndecl", "g", [("n", u)], ANY, [("return", e)]), ("call", V("g"), [bad])])
+    want_tuple = [("tacc", n, 0), ("tacc", n, 1), ("destruct", ["p", "q"], n)]
+    for e in want_tuple:
+        for u, bad in ((multi(tup(INT, INT), INT), I(5)), (ANY, I(5)), (multi(tup(INT, INT), tup(INT,)), None), (multi(tup(INT, INT), arr(INT)), ("array", [I(1)]))):
+            if bad is None:
+                continue
+            T.append([("fndecl", "g", [("n", u)], ANY, [e, ("return", I(0))] if e[0] == "destruct" else [("return", e)]), ("call", V("g"), [bad])])
+    ST = ("struct", (("a", INT),))
+    for e in (("facc", n, "a"),):
+        for u, bad in ((multi(ST, INT), I(5)), (ANY, I(5)), (multi(ST, ("struct", (("b", INT),))), ("struct", [("b", I(1))]))):
+            T.append([("fndecl", "g", [("n", u)], ANY, [("return", e)]), ("call", V("g"), [bad])])
+    return T
+
+
 def mutants(rnd, progs, per_prog=2):
     out = []
     for p in progs:
